@@ -42,7 +42,7 @@ import vlib
 # (by-value recursion, non-ASCII names are rewritten) is filtered by `in_frag` itself
 FEATURES = {"bool", "int", "int_format", "number", "string", "null", "str_enum", "object", "closed_object",
             "map", "array", "nullable_type", "ref", "recursion", "rename", "str_len", "str_pattern", "int_bounds", "set", "fixed_array", "tuple",
-            "oneof_external", "oneof_internal", "oneof_adjacent"}
+            "oneof_external", "oneof_internal", "oneof_adjacent", "oneof_untagged"}
 
 CORPUS = os.path.join(vlib.ROOT, "corpus", "convert")
 
@@ -242,6 +242,46 @@ def oneof_docs():
     doc({"oneOf": [xs("a")], "anyOf": [xs("a")]})
     doc({"anyOf": [xs("a"), xt("V", {"type": "string"})]})
     docs.extend(tagged_docs())
+    docs.extend(untagged_docs())
+    return docs
+
+
+def untagged_docs():
+    """untagged enums over plain scalar arms (untagged_enum with `Variant<i>` names) and what is next to them:
+    maybe_option, a single arm, non-scalar arms, titles"""
+    docs = []
+    bdef = {"type": "object", "properties": {"z": {"type": "boolean"}}}
+
+    def doc(e, **more):
+        d = {"B": bdef, "E": e}
+        d.update(more)
+        docs.append({"definitions": d})
+    sc = [{"type": "string"}, {"type": "integer"}, {"type": "boolean"}, {"type": "number"}, {"type": "null"},
+          {"type": "integer", "format": "uint8"}, {"type": "integer", "minimum": 0, "maximum": 255}]
+    for a, b in itertools.permutations(sc, 2):
+        doc({"oneOf": [a, b]})
+    for a, b, c in itertools.permutations(sc[:5], 3):
+        doc({"oneOf": [a, b, c]})
+    doc({"oneOf": sc[:4]})
+    doc({"oneOf": sc[:5]})
+    doc({"type": "object", "properties": {"u": {"oneOf": [{"type": "string"}, {"type": "integer"}]}}, "required": ["u"]})
+    doc({"type": "object", "properties": {"u": {"oneOf": [{"type": "string"}, {"type": "integer"}]}}})
+    doc({"type": "array", "items": {"oneOf": [{"type": "boolean"}, {"type": "number"}]}})
+    doc({"oneOf": [xs("a"), xt("V", {"oneOf": [{"type": "string"}, {"type": "boolean"}]})]})
+    # near misses
+    doc({"oneOf": [{"type": "string"}]})                                                # one arm
+    doc({"oneOf": [{"type": "string"}, {"type": "string", "maxLength": 3}]})
+    doc({"oneOf": [{"type": "string", "title": "S"}, {"type": "integer", "title": "I"}]})   # named arms
+    doc({"oneOf": [{"type": "string"}, {"$ref": "#/definitions/B"}]})
+    doc({"oneOf": [{"type": "string"}, {"type": "array", "items": {"type": "string"}}]})
+    doc({"oneOf": [{"type": "string"}, {"type": "object", "properties": {"a": {"type": "integer"}}}]})
+    doc({"oneOf": [{"type": "string"}, {"type": ["integer", "null"]}]})
+    doc({"oneOf": [{"type": "string"}, {}]})
+    doc({"oneOf": [{"type": "string", "format": "uuid"}, {"type": "integer"}]})
+    doc({"oneOf": [{"type": "string", "enum": ["a"]}, {"type": "integer"}]})
+    doc({"oneOf": [{"type": "integer", "minimum": 0.5}, {"type": "string"}]})
+    doc({"anyOf": [{"type": "string"}, {"type": "integer"}]})
+    doc({"oneOf": [{"type": "null"}, {"type": "null"}, {"type": "string"}]})
     return docs
 
 
